@@ -8,15 +8,15 @@ def instances(tier):
     out.append((P, 'VH_C13_set_master_head', [3 if tier == 'quick' else 5], {'weight': 5}))
     for w in (0, 1):
         out.append((P, 'VH_C13_wait_calls', [w], {'weight': 5}))
-    for steps in ([1, 2, 3, 4] if tier == 'quick' else [1, 2, 3, 4, 5]):
+    for steps in [1, 2, 3, 4]:   # 5 steps: did not finish within 15 min (single path explosion), not registered
         out.append((P, 'VH_C13_waitlist', [steps], {'weight': 10 ** steps}))
     return out
 
 
 CHECK = dict(
     id='C13', pkgs=['liteapi/pool'], init_pkgs=[], instances=instances, opts={'budget_s': 1200},
-    level_text='updateBest/findBestPingConnection/findFirstWorkingConnection executed symbolically through the conn interface for pools of 1..4 connections with ALL values of (alive, seqno uint32, rtt int64) and any previous choice; the selection specification is asserted.  connection.SetMasterHead for any sequence of 3 (thorough: 5) reported heads: stored head = largest seqno so far, one notification per strict increase, in order.  WaitMasterchainSeqno and BestMasterchainClient themselves (select executed case by case; timers never fire inside the explored call): success at once when the best head already reaches the target / is initialised, an error when the context is cancelled first, and the waiter is unsubscribed on every return.  Wait list: all histories of up to 4 (thorough: 5) critical-section steps over two waiters (arrive with any target seqno / best connection reports any newer head / waiter receives / waiter decides to leave on timeout, cancellation or success / its deferred unsubscribe runs) on the real New, subscribe, unsubscribe, notifySubscribers: no step blocks forever while the pool lock is held (blocking channel operations are VCs), a waiter whose target was reported finds a head >= target in its channel, fast-path subscribers get the head at once, and a leaving caller never removes another registration.',
+    level_text='updateBest/findBestPingConnection/findFirstWorkingConnection executed symbolically through the conn interface for pools of 1..4 connections with ALL values of (alive, seqno uint32, rtt int64) and any previous choice; the selection specification is asserted.  connection.SetMasterHead for any sequence of 3 (thorough: 5) reported heads: stored head = largest seqno so far, one notification per strict increase, in order.  WaitMasterchainSeqno and BestMasterchainClient themselves (select executed case by case; timers never fire inside the explored call): success at once when the best head already reaches the target / is initialised, an error when the context is cancelled first, and the waiter is unsubscribed on every return.  Wait list: all histories of up to 4 critical-section steps over two waiters (arrive with any target seqno / best connection reports any newer head / waiter receives / waiter decides to leave on timeout, cancellation or success / its deferred unsubscribe runs) on the real New, subscribe, unsubscribe, notifySubscribers: no step blocks forever while the pool lock is held (blocking channel operations are VCs), a waiter whose target was reported finds a head >= target in its channel, fast-path subscribers get the head at once, and a leaving caller never removes another registration.',
     level_note='Interleavings are explored at the granularity of the critical sections (every wait-list operation runs under the pool mutex, a waiter\'s only unlocked actions are receive and leave); select is modelled sequentially (every ready case is explored, default only when none is ready); a send to a full channel whose owner still receives is treated as a transient wait (the owner is scheduled first), one whose owner has left as blocking forever.  Real timers, the Run loops and goroutine scheduling inside the runtime are not modelled.',
-    bounds={'quick': {'connections': '1..3', 'wait-list steps': '1..4', 'waiters': 2}, 'thorough': {'connections': '1..4', 'wait-list steps': '1..5', 'waiters': 2}},
+    bounds={'quick': {'connections': '1..3', 'wait-list steps': '1..4', 'waiters': 2}, 'thorough': {'connections': '1..4', 'wait-list steps': '1..4', 'waiters': 2}},
     outside_claim=['the timeout arm of WaitMasterchainSeqno (time.After never fires in the model)', 'Run, InitializeConnections, connection.Run', 'more than 2 concurrent waiters, histories longer than the bound', 'real timing / latency'],
 )
